@@ -1664,8 +1664,132 @@ func round10Specific(c *core.Ctx, rule string) []core.Obligation {
 		}
 	}
 
+	// C08-r11m1: the furthest-side bound is the SUPPLEMENT of the distance (StraightChordAngle - d), not a copy of the
+	// closest side's expansion.
+	if rule == "R-POLARITY" {
+		var fn *ssa.Function
+		for _, f := range c.GeoFuncs() {
+			if f.Name() == "chordAngleBound" && f.Signature.Recv() != nil && core.IsNamed(f.Signature.Recv().Type(), "s2", "maxDistance") {
+				fn = f
+			}
+		}
+		construct := "maxDistance.chordAngleBound:supplement"
+		if fn == nil {
+			ob(rule, construct, nil, token.NoPos, false, "", "unresolved anchor")
+		} else {
+			good := false
+			core.AllInstrs(fn, func(in ssa.Instruction) {
+				if bo, ok := in.(*ssa.BinOp); ok && bo.Op == token.SUB {
+					if cv, ok := bo.X.(*ssa.Const); ok && cv.Value != nil {
+						if f, _ := constant.Float64Val(constant.ToFloat(cv.Value)); f == 4 {
+							good = true
+						}
+					}
+				}
+			})
+			ob(rule, construct, fn, token.NoPos, good, "the bound is StraightChordAngle minus the distance",
+				"the furthest-edge search looks around the ANTIPODE of the target, within pi minus the limit; a bound that is the limit itself (the closest side's formula) shrinks that disc and qualifying edges outside it are silently dropped")
+		}
+		// C08-r11m2: the first and last cell handed to addInitialRange are clones of the iterator, which moves on.
+		fn = c.Fn("s2", "EdgeQuery", "initCovering")
+		construct = "EdgeQuery.initCovering:initial-range-from-cloned-iterators"
+		if fn == nil {
+			ob(rule, construct, nil, token.NoPos, false, "", "unresolved anchor")
+		} else {
+			found, good := false, true
+			fnLoops := loopsOf(fn)
+			for _, call := range calls(fn, "addInitialRange") {
+				inLoop := false
+				for _, body := range fnLoops {
+					if body[call.Block()] {
+						inLoop = true
+					}
+				}
+				if !inLoop {
+					continue // after the walk the iterators themselves are handed over; nothing advances them any more
+				}
+				for _, a := range call.Call.Args[1:] {
+					found = true
+					v := a
+					if ld, ok := v.(*ssa.UnOp); ok && ld.Op == token.MUL {
+						if al, ok := ld.X.(*ssa.Alloc); ok {
+							for _, ref := range *al.Referrers() {
+								if st, ok := ref.(*ssa.Store); ok && st.Addr == al {
+									v = st.Val
+								}
+							}
+						}
+					}
+					if cl, ok := v.(*ssa.Call); !ok || calleeName(cl) != "clone" {
+						good = false
+					}
+				}
+			}
+			if !found {
+				ob(rule, construct, fn, token.NoPos, false, "", "unresolved anchor: no call of addInitialRange inside the loop over the top-level cells (on the pinned tree the loop body ends in a stray break, D12, so there is no loop)")
+			} else {
+				ob(rule, construct, fn, token.NoPos, good, "both ends of every initial range are clone()s of the walking iterator",
+					"an end of the initial range is the walking iterator itself, not a clone: the iterator is advanced by the following seek, so addInitialRange receives the first cell of the NEXT range and every edge on the lowest spanned face is left out of the covering")
+			}
+		}
+	}
+
+	// C03-r11m1: the stateless CrossingSign holds no geometry of its own.
+	if rule == "R-STAGES" {
+		fn := c.Fn("s2", "", "CrossingSign")
+		construct := "CrossingSign:delegates-to-the-crosser"
+		if fn == nil {
+			ob(rule, construct, nil, token.NoPos, false, "", "unresolved anchor")
+		} else {
+			cmp := false
+			core.AllInstrs(fn, func(in ssa.Instruction) {
+				if bo, ok := in.(*ssa.BinOp); ok {
+					if b, ok := bo.X.Type().Underlying().(*types.Basic); ok && b.Info()&types.IsFloat != 0 {
+						switch bo.Op {
+						case token.LSS, token.LEQ, token.GTR, token.GEQ:
+							cmp = true
+						}
+					}
+				}
+			})
+			ob(rule, construct, fn, token.NoPos, !cmp && hasCall(fn, "ChainCrossingSign", "CrossingSign"), "no floating-point comparison of its own; the answer comes from the EdgeCrosser",
+				"the stateless CrossingSign decides some cases by a floating-point comparison of its own before (or instead of) asking the EdgeCrosser: the two entry points then disagree, and a rejection that is not backed by the exact predicates is wrong for long edges and for shared vertices (MaybeCross becomes DoNotCross)")
+		}
+	}
+
+	// C05-r11m1: a closed predicate does not pre-filter with an interior (open) test.
+	if rule == "R-SPECIAL" {
+		n, bad := 0, ""
+		var badFn *ssa.Function
+		for _, fn := range c.GeoFuncs() {
+			if strings.HasPrefix(fn.Name(), "Interior") || strings.HasPrefix(fn.Name(), "interior") {
+				continue
+			}
+			for _, nm := range []string{"InteriorIntersects", "InteriorContains", "InteriorContainsInterval"} {
+				for _, call := range calls(fn, nm) {
+					n++
+					if why, ok := interiorCallAllowed[core.FuncName(fn)]; ok {
+						_ = why
+						continue
+					}
+					bad, badFn = nm, fn
+					_ = call
+				}
+			}
+		}
+		construct := "closed-predicates-do-not-filter-with-interior-tests"
+		if bad != "" {
+			ob(rule, construct, badFn, token.NoPos, false, "", core.FuncName(badFn)+" is a closed (boundary-inclusive) predicate but calls "+bad+": an interval that only touches, or has zero width (a meridian segment), fails the open test, so the closed predicate answers false for regions that share a boundary point")
+		} else {
+			obs = append(obs, core.Ob(rule, construct, "-", "", core.Discharged, fmt.Sprintf("%d calls of Interior* interval predicates from functions that are not themselves Interior*; each is a named site", n)))
+		}
+	}
+
 	return obs
 }
+
+// interiorCallAllowed: functions that are not Interior* themselves and call an Interior* interval predicate on purpose.
+var interiorCallAllowed = map[string]string{}
 
 // InstallLateObligations attaches the obligations of round10Specific to the rules they belong to. It is called once by
 // the driver after all rules have registered (the init order of the files in this package is alphabetical).
